@@ -20,9 +20,14 @@ class Facts:
             self.buildgraph = json.load(fh)
         self.lib = self.crates["lib"]
         self.bin = self.crates["bin"]
+        cpath = os.path.join(directory, "xt_controls-lib.json")
+        self.controls = None
+        if os.path.exists(cpath):
+            with open(cpath) as fh:
+                self.controls = Crate(json.load(fh), "controls")
 
     def all_bodies(self):
-        for c in self.crates.values():
+        for c in (self.lib, self.bin):
             yield from c.bodies
 
 
